@@ -19,9 +19,15 @@ import warnings
 
 from ..engine import REPO
 
-FORMATS = ["xyz", "sdf", "mol2", "pdb", "cube", "gromacs"]
+FORMATS = ["xyz", "sdf", "mol2", "pdb", "cube", "gromacs", "poscar", "chgcar", "locpot"]
 EXT = {"xyz": (".xyz",), "sdf": (".sdf",), "mol2": (".mol2",), "pdb": (".pdb",), "cube": (".cube", ".cub"),
        "gromacs": (".gro",)}
+# the VASP formats are recognised by the START of the file name (PATTERNS of the format modules)
+PREFIX = {"poscar": ("POSCAR",), "chgcar": ("CHGCAR", "AECCAR"), "locpot": ("LOCPOT",)}
+VASP = tuple(PREFIX)
+# address-space head room of a worker while a VASP reader runs: `[n] * count` with a count of 3e9 must fail with
+# MemoryError instead of taking 24 GB from the machine (np.zeros/np.empty are capped by `_guard`)
+VASP_AS_HEADROOM = 2 * 2**30
 CLASSES = ["ValueError", "IndexError", "KeyError", "StopIteration", "TypeError", "LoadError", "OverflowError",
            "MemoryError", "NameError", "AttributeError"]
 EXTRA_KEYS = {"pdb": ["occupancies", "bfactors", "chainids"], "gromacs": ["velocities"]}
@@ -45,7 +51,13 @@ RULE = (
     "the set of keys of the result dictionary whose value is not None, constructor verdict, the attributes that are "
     "not None on the constructed object, lit.lineno; non-trivial = the outcome is not the unmodified file's. pynum: int()/float()/"
     "title()/isdigit()/split()/strip() on seeded strings of the modelled character domain. rctor: IOData(...) on "
-    "seeded array shapes (also mutually inconsistent ones) against the validator model"
+    "seeded array shapes (also mutually inconsistent ones) against the validator model. VASP (rdr:poscar, "
+    "rdr:chgcar, rdr:locpot): corpus files POSCAR*/CHGCAR*/AECCAR*/LOCPOT* (all below 1 kB) plus generated files that "
+    "reach the paths the corpus does not (Cartesian / selective-dynamics headers, counts/symbols of different "
+    "lengths, negative counts, cell or atom lines with other than three numbers, no atoms, grid shape lines with "
+    "0/1/2/4/65 integers at the end of the file, zero-sized grids); an `ok` line of these streams also carries "
+    "atnums.sum() as a value fingerprint, and the real side checks cell (3,3) / 3-d grid data / axes (3,3) on every "
+    "object the constructor accepted"
 )
 ASSUMPTIONS = [
     "character domain of the reader correspondence: printable ASCII, TAB, LF, U+00A0, U+00E9/U+00C9, U+00B2, "
@@ -55,6 +67,10 @@ ASSUMPTIONS = [
     "sizes that overflow intp are numpy's own ValueError)",
     "values that cannot influence the outcome class (coordinates, charges) are abstracted in the reader models: "
     "float() is modelled as accept/reject",
+    "VASP readers: the list repetition `[n] * count` of _load_vasp_header raises MemoryError for more than 1 GiB of "
+    "pointers (the harness limits the address space of the worker to its current size + 2 GiB while the reader "
+    "runs; counts between 2^27 and 2^28 are not generated), OverflowError from 2^63 on; np.linalg.det on a (3, 3) "
+    "matrix of finite/inf/nan entries and the division by its result do not raise",
 ]
 
 
@@ -132,6 +148,17 @@ def real_outcome(fmt: str, text: str) -> dict:
         fh.write(text)
     oz, oe = np.zeros, np.empty
     np.zeros, np.empty = _guard(oz), _guard(oe)
+    old_as = None
+    if fmt in VASP:
+        import resource
+
+        old_as = resource.getrlimit(resource.RLIMIT_AS)
+        with open("/proc/self/statm") as fh:
+            vm = int(fh.read().split()[0]) * resource.getpagesize()
+        want = vm + VASP_AS_HEADROOM
+        if old_as[1] != resource.RLIM_INFINITY:
+            want = min(want, old_as[1])
+        resource.setrlimit(resource.RLIMIT_AS, (want, old_as[1]))
     old = signal.signal(signal.SIGALRM, _alarm)
     signal.alarm(PER_CASE_LIMIT)
     verdict, detail = "ok", ""
@@ -158,7 +185,12 @@ def real_outcome(fmt: str, text: str) -> dict:
                         if bad:
                             verdict, detail = "bad-object", bad
                         isset = ",".join(a for a in ATTR_NAMES if getattr(obj, a, None) is not None) or "-"
-                    return {"line": f"ok {summ} ctor={ctor} set={isset} @{lineno}", "verdict": verdict,
+                    tag = f" zsum={int(res['atnums'].sum())}" if fmt in VASP else ""
+                    if fmt in VASP and verdict == "ok":
+                        bad = _vasp_inconsistent(res, obj)
+                        if bad:
+                            verdict, detail = "bad-object", bad
+                    return {"line": f"ok {summ} ctor={ctor} set={isset} @{lineno}{tag}", "verdict": verdict,
                             "detail": detail}
             except _Timeout:
                 return {"line": "timeout", "verdict": "timeout", "detail": ""}
@@ -169,6 +201,8 @@ def real_outcome(fmt: str, text: str) -> dict:
         signal.alarm(0)
         signal.signal(signal.SIGALRM, old)
         np.zeros, np.empty = oz, oe
+        if old_as is not None:
+            resource.setrlimit(resource.RLIMIT_AS, old_as)
         try:
             os.unlink(path)
             os.rmdir(d)
@@ -193,6 +227,21 @@ def _inconsistent(obj) -> str:
     for k, v in (obj.atffparams or {}).items():
         if hasattr(v, "__len__") and not isinstance(v, str) and len(v) != nat:
             return f"atffparams[{k}] has {len(v)} entries, natom {nat}"
+    return ""
+
+
+def _vasp_inconsistent(res, obj) -> str:
+    """VASP results the constructor accepted: cell 3x3, grid data as large as its shape says, axes 3x3"""
+    if obj is None:
+        return ""
+    if obj.cellvecs is None or obj.cellvecs.shape != (3, 3):
+        return f"cellvecs has shape {None if obj.cellvecs is None else obj.cellvecs.shape}"
+    if obj.atnums is None or obj.atcoords is None or obj.atnums.shape != (len(obj.atcoords),):
+        return "atnums / atcoords disagree"
+    cube = res.get("cube")
+    if cube is not None:
+        if cube.data.ndim != 3 or cube.axes.shape != (3, 3) or cube.origin.shape != (3,):
+            return f"cube has data shape {cube.data.shape}, axes {cube.axes.shape}"
     return ""
 
 
@@ -266,13 +315,47 @@ def _generated(fmt: str) -> list[tuple[str, str]]:
             ("gen-empty", "\n\n\n  0  0  0  0  0  0  0  0  0  0999 V2000\nM  END\n$$$$\n"),
         ],
     }
+    hdr = "title\n 1.0\n 4.0 0.0 0.0\n 0.0 4.0 0.0\n 0.0 0.0 4.0\n"
+    vasp_grid = [
+        ("gen-h2", hdr + " H\n 2\nDirect\n 0.0 0.0 0.0\n 0.5 0.5 0.5\n\n 2 1 3\n 1.0 2.0 3.0 4.0\n 5.0E+00 6.0\n"
+                         "augmentation occupancies 1 2\n 0.1 0.2\n"),
+        ("gen-cart", hdr + " O H\n 1 2\nSelective dynamics\nKartesian\n 0 0 0 T T T\n 1 0 0 F F F\n 0 1 0 T F T\n"
+                           "\n 1 2 2\n 1 2 3\n 4 trailing\nmore\n"),
+        ("gen-skip", hdr + "He\n1\nd\n 0.5 0.5 0.5\n\n 7\n 1 2\n 1 2 3 4\n 1 1 2\n .5\n 1e-3\n"),
+        ("gen-eof4", hdr + "He\n1\nd\n 0.5 0.5 0.5\n\n 1 2 3 4\n"),
+        ("gen-eof4z", hdr + "He\n1\nd\n 0.5 0.5 0.5\n 2 0 3 4 5\n"),
+        ("gen-eof2", hdr + "He\n1\nd\n 0.5 0.5 0.5\n\n 3 3\n"),
+        ("gen-zero", hdr + "He\n1\nd\n 0.5 0.5 0.5\n\n 0 2 2\nnot read\n"),
+        ("gen-many", hdr + "He\n1\nd\n 0.5 0.5 0.5\n" + " ".join(["1"] * 65) + "\n"),
+        ("gen-cell2", "t\n2\n 1 0\n 0 1\n 0 0\nLi\n1\nCart\n 0 0 0\n\n 1 1 1\n 9.5\n"),
+        # Cartesian by the letter `k` with rows of two numbers / without atoms: the shapes tell the mode
+        ("gen-short-k", hdr + " H\n 1\nk\n 0 0\n\n 1 1 1\n 2.5\n"),
+    ]
+    g["chgcar"] = vasp_grid
+    g["locpot"] = [(n, t) for n, t in vasp_grid
+                   if n in ("gen-h2", "gen-cart", "gen-skip", "gen-eof4", "gen-cell2", "gen-short-k")]
+    g["poscar"] = [
+        ("gen-direct", hdr + " Si  C\n 1 1\nDirect\n 0.0 0.0 0.0\n 0.25 0.25 0.25 comment\n"),
+        ("gen-sel", "x\n -2.5e0\n 1 0 0\n 0 1 0\n 0 0 1\n Fe O H\n 1 0 2\nselective\ncartesian\n 0 0 0 T T T\n"
+                    " 1 0 0 F F F\n 0 1 0 T F T\ntrailing line\n"),
+        ("gen-zip", hdr + " H He Li\n 2 -1\nK\n 0 0 0\n 1 1 1\n"),
+        ("gen-short", hdr + " H\n 2\nCart\n 0 0\n 1 1\n"),
+        ("gen-ragged", hdr + " H\n 2\nCart\n 0 0\n 1 1 1\n"),
+        ("gen-none", hdr + "\n\nCart\n"),
+        ("gen-none-k", hdr + " H\n -1\nSelective\nKartesian\n"),
+        ("gen-short-k", hdr + " H He\n 1 1\nk\n 0 0\n 1 1\n"),
+        ("gen-none-d", hdr + " H\n 0\n\n"),
+        ("gen-cell4", "t\n1\n 1 0 0 0\n 0 1 0 0\n 0 0 1 0\nB\n1\nDirect\n 0 0 0\n"),
+        ("gen-cell0", "t\n1\n\n\n\nB\n1\nCartesian\n 0 0 0\n"),
+    ]
     return g.get(fmt, [])
 
 
 def _sources(fmt: str) -> list[tuple[str, str]]:
     out = []
     for p in sorted((REPO / "iodata" / "test" / "data").iterdir()):
-        if p.is_file() and p.suffix in EXT[fmt] and p.stat().st_size < 60_000:
+        hit = p.name.startswith(PREFIX[fmt]) if fmt in PREFIX else p.suffix in EXT[fmt]
+        if p.is_file() and hit and p.stat().st_size < 60_000:
             try:
                 out.append((p.name, p.read_text()))
             except UnicodeDecodeError:
